@@ -61,6 +61,12 @@ Definition rbody_wf (b : rbody) : bool :=
 Definition rinfo_wf (ts : Z) (id : N) : bool :=
   ((0 <=? ts) && (ts <=? 4294967295))%Z && (id <=? 65535).
 
+(** KNOWN CLASS (known_findings C18-unsupported-extensions): an entry carrying raw extension
+    bytes; the RPC form has no place for them *)
+Definition seg_has_extensions (sg : segment) : bool :=
+  existsb (fun e => negb (is_nil (ae_ext (se_entry e))) || negb (is_nil (ae_uext (se_entry e))))
+          (sg_entries sg).
+
 (** ** Paths: values that have an RPC form (what [try_from_rpc] can produce, within i64) *)
 Definition lt_repr (t : linktype) : bool :=
   match t with LtUnknown v => (3 <? v) && (v <=? 255) | _ => true end.
@@ -90,6 +96,13 @@ Definition ifs_repr (l : list ifmeta) : bool :=
      | mkIf _ _ _ la bw lk => is_none la && is_none bw && is_none lk end
   && all_or_none egress_repr (evens l)
   && all_or_none ingress_repr (firstn (n / 2 - 1) (odds l)).
+
+(** RPC path messages whose value is representable: non-negative expiration, link types that
+    survive the [as u8] of [LinkType::from_i32] *)
+Definition rpath_canonical (r : rpath) : bool :=
+  match rp_exp r with Some (s, _) => (0 <=? s)%Z | None => true end
+  && forallb (fun z => lt_repr (linktype_of_i32 z)) (rp_lt r)
+  && forallb (fun c => c <=? 4294967295) (rp_ih r).
 
 Section PathSpec.
 Context {SA : Type}.
